@@ -45,7 +45,11 @@ def replay(obligation, extra):
                ('407', [b'HTTP/1.1 407 Proxy Authentication Required\r\n\r\n'], False),
                ('EOF at once', [b''], False), ('status line then EOF', [b'HTTP/1.1 200 OK\r\n', b''], False),
                ('unterminated 17 KiB', [b'HTTP/1.1 200 OK\r\nX: ' + b'a' * 17500, b''], False),
-               ('garbage', [b'\x00\x01\x02garbage\r\n\r\n'], False), ('socket error', [OSError(104, 'reset')], False)]
+               ('garbage', [b'\x00\x01\x02garbage\r\n\r\n'], False), ('socket error', [OSError(104, 'reset')], False),
+               # oversized (> 16 KiB) but TERMINATED 200 answers; the terminator arrives in the read that crosses the limit
+               ('terminated 200 answer of 17 000 bytes', [b'HTTP/1.1 200 OK\r\nX: ' + b'a' * (17000 - 24) + b'\r\n\r\n'], False),
+               ('terminated 200 answer of 16 500 bytes in 500-byte reads', [c for c in harness.cut(b'HTTP/1.1 200 OK\r\nX: ' + b'a' * (16500 - 24) + b'\r\n\r\n', range(500, 16500, 500))], False),
+               ('terminated 200 answer of exactly 16 384 bytes', [b'HTTP/1.1 200 OK\r\nX: ' + b'a' * (16384 - 24) + b'\r\n\r\n'], True)]
     for url, key in (('ws://target.example:8080/chat', 'http'), ('wss://secure.example/chat', 'https'), ('ws://plain.example/', 'http')):
         for purl in ('http://proxy.example:3128', 'http://proxy.example', 'https://sproxy.example', 'http://user:pw@proxy.example:8000'):
             for name, reads, good in answers:
